@@ -11,7 +11,7 @@ RULES = {
     "L4": "every constructor of a PriceLevel value either starts empty (zero counters, OrderQueue::new()) or derives the three counters from the very order list it queues (refresh_aggregates fold) ",
     "L5": "total_quantity returns load(visible) + load(hidden)",
     "L6": "every fetch_sub operand is bounded by the counted contribution of an order taken on that path (its display/reserve, match_against's consumed/hidden_reduced, or old-new on the new<old branch)",
-    "L0": "coverage: every mutator has queue effects, every OrderUpdate variant is analysed, no path ends undecided",
+    "L0": "coverage: the mutators are add_order, match_order, update_order plus every other function found (from the MIR, on every run) to write a counter or the queue of a level passed as its first parameter; every function that writes a level's counters or queue is one of them or reached from one; every mutator has queue effects, every OrderUpdate variant is analysed, no path ends undecided",
 }
 
 
@@ -467,8 +467,8 @@ def run(ctx, chk):
                        "dashmap / crossbeam SegQueue behave as a map and a FIFO"]
     chk.not_decided = ["uniqueness of ids", "overflow of fetch_add when orders are added", "internals of DashMap/SegQueue"]
     L = LevelAnalysis(ctx)
-    chk.entry_sets = {"mutators": MUTATORS, "counter_fields": L.counter_role, "queue_field": L.queue_field}
-    for name in MUTATORS:
+    chk.entry_sets = {"mutators": L.mutators(), "counter_fields": L.counter_role, "queue_field": L.queue_field}
+    for name in L.mutators():
         res = check_mutator(ctx, chk, L, name)
         if name == "update_order":
             upd = ctx.db.adt("orders::update::OrderUpdate")
@@ -479,6 +479,8 @@ def run(ctx, chk):
                         seen.add(atom[2])
             for v in upd["variants"]:
                 chk.require(v["name"] in seen, "L0", "update_order:arm:%s" % v["name"], "", "OrderUpdate::%s is not analysed" % v["name"])
+    from ..lvlrules import rule_unanalysed_writers
+    rule_unanalysed_writers(ctx, chk, L, "L0")
     check_constructors(ctx, chk, L)
     # L5
     for ty, nm in (("PriceLevel", "total_quantity"),):
